@@ -1139,6 +1139,12 @@ func checkC17(ctx *Ctx) *Result {
 	sort.Strings(lem)
 	r.sample(map[string]any{"functions_examined": len(fns), "bounds_operations_on_paths": total, "distinct_sites": len(br.sites), "proved_by_zone_reasoning": br.proved,
 		"left_to_compiler_prove_pass": br.byCompiler, "failed": br.failed, "compiler_unproven_lines": len(unproven), "compiler_lines_in_inlined_library_helpers": missed, "named_lemmas_used": lem})
+	// R17.d rests on ParsePattern never accepting an empty host: the IDNA profile
+	// (with VerifyDNSLength) is consulted for every domain host
+	r.share(checkC13(ctx), map[string]string{
+		"R13.4": "every accepting path of ParsePattern has passed each documented guard (a domain host went through the IDNA profile, which rejects the empty host Tree.Insert could not index)",
+		"R13.8": "the IDNA profile used for domain hosts is idna.New(BidiRule, ValidateLabels(true), StrictDomainName(true), VerifyDNSLength(true))",
+	}, nil)
 	// "returns": no call is left waiting on the middleware's own lock
 	r.share(checkC07(ctx), map[string]string{
 		"R7.2": "every lock acquired by Reconfigure, SetDebug, Config and the request closure is released on every path",
